@@ -14,7 +14,7 @@ LEVEL = "model_checking"
 
 HPACK_DEFECTS = ["IgnoreSetting", "NoSizeUpdate", "OnlyFinalUpdate", "NoEvict", "MutedNoInsert"]
 FRAME_DEFECTS = ["NoAdvance", "DrainFirstOnly", "PartialBlock"]
-FLOW_DEFECTS = ["NoConnCharge", "IgnoreFrameSize", "NoSettingsAdjust", "LostWakeup"]
+FLOW_DEFECTS = ["NoConnCharge", "IgnoreFrameSize", "NoSettingsAdjust", "LostWakeup", "FrameSizeAtBodyStart"]
 
 _MM = re.compile(r'"MISMATCH",\s*(\d+),\s*"([^"]+)"')
 
